@@ -99,14 +99,18 @@ theorem setter_error_class (c : Claims) (op : SetOp) (m : ErrMask) (h : (applySe
           · exact Or.inr ⟨⟨_, rfl⟩, h'⟩
           · exact Or.inl h'
         | panic s => simp [hv, Outcome.bind] at h
-    · cases hv : validateAndConvert (l.getD []) with
-      | ok r => simp [hv, Outcome.bind] at h
-      | err m' =>
-        simp [hv, Outcome.bind] at h; subst h
-        rcases validateAndConvert_err_class _ _ hv with h' | h'
-        · exact Or.inr ⟨⟨_, rfl⟩, h'⟩
-        · exact Or.inl h'
-      | panic s => simp [hv, Outcome.bind] at h
+    · cases l with
+      | none => simp at h; exact Or.inl h.symm
+      | some vals =>
+        dsimp only at h
+        cases hv : validateAndConvert vals with
+        | ok r => simp [hv, Outcome.bind] at h
+        | err m' =>
+          simp [hv, Outcome.bind] at h; subst h
+          rcases validateAndConvert_err_class _ _ hv with h' | h'
+          · exact Or.inr ⟨⟨_, rfl⟩, h'⟩
+          · exact Or.inl h'
+        | panic s => simp [hv, Outcome.bind] at h
   | nonce b =>
     have := key _ _ h
     rcases validateHash_cases b with h' | h' <;> simp [h'] at this; exact Or.inl this.symm
